@@ -9,7 +9,7 @@ PROPS = {"C03": "model_checking", "C15": "model_checking"}
 PROP_INVS = {
     "C03": ["C03_CommitNotAhead", "C03_SyncAckRecorded", "C03_StartAtCommit", "C03_NoGapInStream", "C03_OnlyAssigned", "C03_StoredOnly",
             "C03_DeliveredBeforeCovered", "C03_AtLeastOnce"],
-    "C15": ["C15_NextWaits", "C15_CloseWaits", "C15_EndCauses", "C15_NoHeartbeatAfterEnd", "C15_HeartbeatInterval", "C15_LeaveOnClose",
+    "C15": ["C15_NextWaits", "C15_CloseWaits", "C15_EndCauses", "C15_EndsOnCause", "C15_NoHeartbeatAfterEnd", "C15_HeartbeatInterval", "C15_LeaveOnClose",
             "C15_BackoffAfterFailedJoin"],
     "C09": ["C09r_QuietAfterClose", "C09r_CloseReturns", "C09r_AppReturns", "C09r_ConnsClosed", "C15_LeaveOnClose"],
 }
@@ -136,6 +136,18 @@ def directed():
     out.append(dict(base, id="D-close-joining", steps=[{"op": "hold", "gate": "coord:m1/join"}, {"op": "start", "m": 1, "fns": 1},
                                                        {"op": "waitgate", "gate": "coord:m1/join"}, {"op": "stopasync", "m": 1},
                                                        {"op": "sleep", "ms": 40}, {"op": "release", "gate": "coord:m1/join"}]))
+    # a watched topic's partition count changes in either direction (also: topic deleted) -> the generation ends;
+    # a failed heartbeat / a function returning ends it too; without the watcher a change does not
+    for how in ("addpartition", "removepartition", "deletetopic"):
+        for watch in (True, False):
+            out.append(dict(base, id="D-watch-%s-%s" % (how, "on" if watch else "off"), topics={"t": 2}, watch=watch, steps=[
+                {"op": "start", "m": 1, "fns": 2}, {"op": "sleep", "ms": 400}, {"op": "hold", "gate": "coord:m1/join"}, {"op": how, "t": "t"},
+                {"op": "sleep", "ms": 1800}, {"op": "stopasync", "m": 1}, {"op": "sleep", "ms": 50}, {"op": "release", "gate": "coord:m1/join"}]))
+    for code in CODES:
+        out.append(dict(base, id="D-heartbeat-fails-%d" % code, steps=[
+            {"op": "start", "m": 1, "fns": 2}, {"op": "sleep", "ms": 300}, {"op": "inject", "m": 1, "api": "heartbeat", "nth": 0, "code": code},
+            {"op": "hold", "gate": "coord:m1/join"}, {"op": "sleep", "ms": 1800}, {"op": "stopasync", "m": 1}, {"op": "sleep", "ms": 50},
+            {"op": "release", "gate": "coord:m1/join"}]))
     rb = {"mode": "reader", "topics": {"t": 2}, "records": 6, "startOffset": -2, "commitIntervalMs": 0, "heartbeatMs": 20, "backoffMs": 60,
           "watch": False, "drain": True}
     # two members, rebalance in the middle of consumption, sync commits
@@ -160,6 +172,24 @@ def directed():
             {"op": "inject", "m": 1, "api": "offsetcommit", "nth": 0, "code": code},
             {"op": "fetch", "m": 1, "n": 3, "commit": "sync", "wait": True}, {"op": "sleep", "ms": 200},
             {"op": "fetch", "m": 1, "n": 60, "commit": "sync", "wait": True}]))
+    # OffsetFetch fails (every code, dropped connection) when the group already has commits: the next subscription
+    # must still start at the commits, i.e. not before the member has asked again
+    for code in CODES:
+        for so in (-2, -1):
+            out.append(dict(rb, id="D-offsetfetch-fails-after-commits-%d-s%d" % (code, -so), startOffset=so, drain=(so == -2), steps=[
+                {"op": "start", "m": 1}, {"op": "fetch", "m": 1, "n": 3, "commit": "sync", "wait": True},
+                {"op": "inject", "m": 1, "api": "offsetfetch", "nth": 0, "code": code}, {"op": "rebalance"}, {"op": "sleep", "ms": 300},
+                {"op": "append", "t": "t", "p": 0, "n": 2}, {"op": "append", "t": "t", "p": 1, "n": 2},
+                {"op": "fetch", "m": 1, "n": 60, "commit": "sync", "wait": True}]))
+    # a synchronous commit fails and the Reader is closed during the back-off before the retry: CommitMessages
+    # must not report success for a commit the coordinator never recorded
+    for code in (27, 22, 25, 16, -1):
+        for ms in (5, 40, 130):
+            out.append(dict(rb, id="D-close-during-commit-retry-%d-%d" % (code, ms), drain=False, steps=[
+                {"op": "start", "m": 1}, {"op": "fetch", "m": 1, "n": 2, "commit": "sync", "wait": True},
+                {"op": "inject", "m": 1, "api": "offsetcommit", "nth": 0, "code": code},
+                {"op": "fetch", "m": 1, "n": 2, "commit": "sync", "wait": False}, {"op": "sleep", "ms": ms},
+                {"op": "stopasync", "m": 1}, {"op": "sleep", "ms": 200}]))
     # crash-like: member evicted while it holds uncommitted messages, another member takes over
     out.append(dict(rb, id="D-evict", steps=[
         {"op": "start", "m": 1}, {"op": "fetch", "m": 1, "n": 4, "commit": "none", "wait": True}, {"op": "start", "m": 2}, {"op": "sleep", "ms": 250},
@@ -236,6 +266,37 @@ def monitor(ctx, scripts, traces, invs, maxviol=30):
     return checked
 
 
+def conformance(ctx, traces):
+    """Generation accounting events of every trace against the accounting actions of Group.tla (GenTrace.tla)."""
+    divs = []
+    remaining = list(traces)
+    accepted = 0
+    while remaining and len(divs) < 20:
+        tf = os.path.join(ctx.work, "gconf-in.ndjson")
+        write_ndjson(tf, [e for t in remaining for e in t])
+        r = ctx.tlc(ENGINE, "GenTrace", "GenTrace.cfg", workers=1, timeout=2400, env={"TRACE": tf})
+        if r["postcondition_failed"] or r["violated"]:
+            m = re.search(r'"DIVERGED_AT_LINE",\s*(\d+)', r["out"])
+            line = int(m.group(1)) if m else (r["depth"] or 1)
+            n = 0
+            for k, t in enumerate(remaining):
+                if line <= n + len(t):
+                    ev = t[line - n - 1] if 0 < line - n <= len(t) else {}
+                    divs.append({"trace": t[0].get("id"), "event": ev, "why": r["violated"] or "not an accounting step of Group.tla"})
+                    accepted += k
+                    remaining = remaining[k + 1:]
+                    break
+                n += len(t)
+            else:
+                raise Inconclusive("conformance failure could not be located")
+            continue
+        if r["error"] or r["timeout"]:
+            raise Inconclusive("conformance run failed: " + (r["error"] or r["out"][-1500:]))
+        accepted += len(remaining)
+        remaining = []
+    return accepted, divs
+
+
 def model_check(ctx):
     d = ctx.specdir(ENGINE)
     quick = ctx.tier == "quick"
@@ -293,6 +354,12 @@ def run_part(ctx, prop):
     scripts = gen_scripts(ctx.seed, prop, n)
     traces = run_scripts(ctx, scripts, "main")
     checked = monitor(ctx, scripts, traces, PROP_INVS[prop])
+    if prop == "C15":
+        accepted, divs = conformance(ctx, traces)
+        cov.update({"accounting_traces_accepted": accepted, "divergence_count": len(divs), "divergences": divs[:10]})
+        if divs:
+            ctx.notes.append("DIVERGENCE: %d trace(s): Generation accounting events are not steps of Group.tla" % len(divs))
+            print("DIVERGENCE property=C15 traces=%d first=%s" % (len(divs), json.dumps(divs[0])[:300]), flush=True)
     cov.update({"traces_validated_against_impl": checked, "scenarios": len(scripts), "trace_events": sum(len(t) for t in traces),
                 "invariants": PROP_INVS[prop],
                 "samples": [{"script": scripts[0]}, {"script": scripts[-1]}, {"trace_head": traces[-1][:10]}]})
